@@ -283,6 +283,7 @@ def _load_extra_sections():
 
 
 def main():
+    EXTRA_SECTIONS.clear()
     _load_extra_sections()
     text, meta = generate()
     os.makedirs(os.path.dirname(OUT), exist_ok=True)
